@@ -325,6 +325,10 @@ func archiveMain(args []string) {
 		{rel: "sub", dir: true, mtime: base0.Add(6 * time.Hour)}, {rel: "sub/pack.Z", dir: true, mtime: base0.Add(7 * time.Hour)},
 		{rel: "sub/pack.Z/empty.jar", content: []byte{}, mtime: base0.Add(8 * time.Hour)}, {rel: "sub/void", dir: true, mtime: base0.Add(9 * time.Hour)},
 		{rel: "de\u0301compose\u0301", dir: true, mtime: base0.Add(10 * time.Hour)}, {rel: "de\u0301compose\u0301/cafe\u0301.txt", content: []byte("decomposed"), mtime: base0.Add(11 * time.Hour)},
+		// entries named like the tree's own root, the archive and the destination
+		{rel: "src", dir: true, mtime: base0.Add(12 * time.Hour)}, {rel: "src/src", dir: true, mtime: base0.Add(13 * time.Hour)},
+		{rel: "src/a.zip", content: []byte("named like the archive"), mtime: base0.Add(14 * time.Hour)}, {rel: "sub/src", dir: true, mtime: base0.Add(15 * time.Hour)},
+		{rel: "out", dir: true, mtime: base0.Add(16 * time.Hour)}, {rel: "out/src", content: []byte("a file named like the root"), mtime: base0.Add(17 * time.Hour)},
 	}
 	for i := -3; i < n; i++ {
 		var nodes []tNode
